@@ -22,12 +22,19 @@ MStop == Stop /\ cmds' = Append(cmds, [ev |-> "stop"]) /\ UNCHANGED kind
 MPass(t) == /\ t \in DOMAIN th /\ th[t] = "pass"
             /\ IF kind[t] = "bad" THEN Fail(t) ELSE End(t)
             /\ cmds' = Append(cmds, [ev |-> "pass"]) /\ UNCHANGED kind
+\* "let the pass finish and call stop_updater right away": the stop lands in the thread's sleep when the pass was
+\* not stopped before (End, then Stop) - the case in which one more pass begins after the stop
+MPassStop(t) ==
+  /\ t \in DOMAIN th /\ th[t] = "pass" /\ kind[t] = "good" /\ running
+  /\ th' = [th EXCEPT ![t] = "sleep"] /\ running' = FALSE /\ stopSeen' = passes /\ begunAfterStop' = 0
+  /\ UNCHANGED <<holder, open, passes, kind>>
+  /\ cmds' = Append(cmds, [ev |-> "pass_stop"])
 \* what the code does by itself, as soon as it can
 MAuto(t) == (Acquire(t) \/ Begin(t) \/ Wake(t)) /\ UNCHANGED <<cmds, kind>>
 AutoEnabled == \E t \in Ids : ENABLED Acquire(t) \/ ENABLED Begin(t) \/ ENABLED Wake(t)
 \* commands are issued only when the code has nothing left to do by itself (the driver waits for that)
 MNext == \/ \E t \in Ids : MAuto(t)
-         \/ ~AutoEnabled /\ (Len(cmds) < MaxCmds) /\ ((\E k \in {"good", "bad"} : MStart(k)) \/ MStop \/ \E t \in Ids : MPass(t))
+         \/ ~AutoEnabled /\ (Len(cmds) < MaxCmds) /\ ((\E k \in {"good", "bad"} : MStart(k)) \/ MStop \/ \E t \in Ids : (MPass(t) \/ MPassStop(t)))
 MSpec == MInit /\ [][MNext]_mvars
 Emit == [][cmds' # cmds => PrintT(<<"SCRIPT", ToJson(cmds')>>)]_mvars
 =============================================================================
